@@ -51,4 +51,56 @@ PROPS = {
             "an unlistable sub-directory is an observation only (os.walk drops it silently; the property's quantifier does not list it)",
             "files that failed after processing began are judged against the stream twin fed the lines they had consumed"],
     },
+    "C08": {
+        "families": [("pwd", {"quick": 2500, "thorough": 120000}, {"mode": "c08"})],
+        "wall": {"quick": 200, "thorough": 2400},
+        "rule": "one evaluation = one seeded run over 1-6 files whose lines reuse 2-6 secret identities in random format classes, "
+                "line forms, quoting variants, $9$ re-encodings under different salt characters and the same plaintext in clear, "
+                "with 0-2 storage faults biased onto the file that first introduces a reused secret; every replacement token of "
+                "every durable output is decoded to its pseudonym index by independent decoders; distinct = distinct signature "
+                "(identity sequence per line, files, faults fired, entry point); non-trivial = >= 2 identities with >= 1 reuse "
+                "across different files or line forms",
+        "assumptions": _COMMON_ASSUMPTIONS + [
+            "pseudonym indices are recovered with passlib (type 7 decode, md5/sha512 verify), decimal/hex decoding and an own $9$ "
+            "decoder; tokens whose context was not preserved are counted as unextractable, not guessed at",
+            "the line-form x secret-value space is sampled by the fixed template list (validated by `check selftest-grammar`)"],
+    },
+    "C07": {
+        "families": [("pwd", {"quick": 1500, "thorough": 80000}, {"mode": "c07"})],
+        "wall": {"quick": 200, "thorough": 2400},
+        "rule": "one evaluation = one pair of deterministic worlds that differ only in the secret values (same classes, lengths, "
+                "md5 salt lengths, equality pattern), executed under the identical plan (files, listing order, entropy, set order, "
+                "0-2 faults, 0-3 unrelated earlier anonymizers in the same process, some reserving this run's secrets); distinct = "
+                "distinct signature (identity/class sequence, templates, files, faults, pre-history length); non-trivial = >= 2 "
+                "identities with >= 1 repeated, or an INFO+ record produced on a fault path",
+        "assumptions": _COMMON_ASSUMPTIONS + [
+            "scoped: the line-form x secret-value space is sampled by the template list and class generators; the simulator decides "
+            "the history, log-channel, fault and leftover-state facets for what is sampled",
+            "planted secrets are >= 10 characters and unique, so an occurrence in output/log is a leak and not a coincidence"],
+    },
+    "C13": {
+        "families": [("det", {"quick": 1500, "thorough": 80000}, {"mode": "c13"})],
+        "wall": {"quick": 200, "thorough": 2400},
+        "rule": "one evaluation = one scenario (tree, options, listing order, entry point) executed in a cold simulated process and "
+                "again with a chosen set of nondeterminism dimensions changed (entropy, random seed, hash-set order, clock/pid, "
+                "buffer sizes, 1-4 earlier activities in the same process) or in a real child interpreter with another "
+                "PYTHONHASHSEED; includes the no-salt scenario (re-run with the reported salt); distinct = distinct signature; "
+                "non-trivial = the varied dimension was actually exercised by the scenario (a $6$ secret / entropy consumed when "
+                "entropy changes, sensitive words present when the set order changes, a pre-history present, ...)",
+        "assumptions": _COMMON_ASSUMPTIONS + [
+            "listing order is part of the input (pseudonym numbers follow processing order)",
+            "the hash seed is varied through the order of the set feeding the word alternation in-process, and for real in child "
+            "interpreters (count in reach_probes.child_runs)"],
+    },
+    "C10": {
+        "families": [("det", {"quick": 1500, "thorough": 80000}, {"mode": "c10"})],
+        "wall": {"quick": 200, "thorough": 2400},
+        "rule": "one evaluation = one word list (1-6 words over g-z, overlaps, mixed case, substrings of reserved words, user "
+                "reserved additions) and 3-14 lines, executed under every alternation order (all n! for n <= 3, 4 sampled above) "
+                "and after unrelated earlier anonymizers in the same process; distinct = distinct signature; non-trivial = "
+                "overlapping words or a reserved token containing a listed word, with >= 2 orders or a pre-history",
+        "assumptions": _COMMON_ASSUMPTIONS + [
+            "scoped: the line x word-list space is sampled; clause (3) (one pseudonym per occurrence, function of matched text) is "
+            "checked for non-overlapping lists only"],
+    },
 }
